@@ -158,7 +158,7 @@ class PoolWorld(HistoryWorld):
         if leg == 'deep':
             return {'steps': 6, 'callers': 1, 'arena': 2, 'deep': [1022, 1023][run_index % 2]}
         if leg == 'boundary':
-            shapes = ['cells255', 'cells256', 'cells257', 'pay255', 'pay256', 'pay65535', 'pay65536', 'diamond', 'ladder', 'wide-shared', 'exotic', 'two-same-refs', 'proof-next-to-data', 'update-skeleton-vs-full', 'exotic-lookalike']
+            shapes = ['cells255', 'cells256', 'cells257', 'pay255', 'pay256', 'pay65535', 'pay65536', 'diamond', 'ladder', 'wide-shared', 'exotic', 'two-same-refs', 'proof-next-to-data', 'update-skeleton-vs-full', 'exotic-lookalike', 'empty-chain70', 'empty-chain100', 'empty-chain250', 'empty-chain300']
             return {'steps': 8, 'callers': 1, 'arena': 1, 'shape': shapes[run_index % len(shapes)]}
         if leg == 'huge':
             return {'steps': 5, 'callers': 1, 'arena': 1, 'shape': 'cells%d' % (65534 + run_index % 4)}
@@ -897,6 +897,25 @@ class PoolWorld(HistoryWorld):
         if e is None:
             return None
         c = e['lib']
+        if self.prop == 'C08':
+            # the caller takes what the read-only accessors hand out (data bytes, representation, hashes) and goes on working with
+            # it - `frame = cell.data; frame += header` only rebinds a name if the value is bytes; whatever it is, the cell stays put
+            ok0, before = call(c.to_boc)
+            for get in (lambda: c.data, c.get_representation, lambda: c.hash, lambda: c.get_hash(0), c.get_data_bytes):
+                okg, v = call(get)
+                if okg and isinstance(v, (bytearray, list, dict)):
+                    try:
+                        v += type(v)(b'\x01\x02') if isinstance(v, bytearray) else type(v)()
+                        if isinstance(v, bytearray) and v:
+                            v[0] ^= 0xff
+                    except Exception:
+                        pass
+                    ctx.probe('accessor-returned-a-mutable-container')
+            ok1, after = call(c.to_boc)
+            ok2, rh = call(c.calculate_representation_hash) if not c.level_mask.mask else (True, c.hash)
+            if ok0 != ok1 or (ok0 and before != after) or (ok2 and rh != c.hash):
+                self.V(ctx, 'result-aliases-internal-state', 'data', 'cell-changed-after-the-caller-edited-what-an-accessor-returned',
+                       'after the caller edited the value a read-only accessor (data / get_representation / hash) had returned, the cell serialises or hashes differently')
         a = (c.hash, hash(c), c.get_hash(0), c.get_depth(0))
         b = (c.hash, hash(c), c.get_hash(0), c.get_depth(0))
         if a != b:
@@ -1280,6 +1299,12 @@ def make_shape(shape, rng):
     if shape.startswith('pay'):
         target = int(shape[3:])
         return payload_shape(target, rng)
+    if shape.startswith('empty-chain'):
+        # cells without any data, told apart by their depth alone: the cells section is as small as a bag of n cells can be
+        cur = RCell('')
+        for i in range(int(shape[11:]) - 1):
+            cur = RCell('', (cur,))
+        return cur
     if shape == 'diamond':
         d = leaf(1)
         b, c = RCell('01', (d,)), RCell('10', (d,))
